@@ -130,12 +130,16 @@ impl Prop for C16 {
         static STORED: std::sync::OnceLock<Vec<refdb::RefConstant>> = std::sync::OnceLock::new();
         let stored = STORED.get_or_init(refdb::constants);
         let mut toks: Vec<String> = c.tokens.iter().map(|t| t.to_string()).collect();
+        // identified by its *set* of words and its description: how often the tool keeps a
+        // repeated search word of a fact is not part of the statement
         toks.sort();
+        toks.dedup();
         let cands: Vec<&refdb::RefConstant> = stored
             .iter()
             .filter(|r| {
                 let mut t = r.tokens.clone();
                 t.sort();
+                t.dedup();
                 t == toks && r.description.as_deref() == Some(c.description.as_ref())
             })
             .collect();
